@@ -23,6 +23,10 @@ Definition is_under (x : N) : bool := (900 <=? x)%N.   (* names starting with "_
 (* functions named q1, q2 (ids 250..259) are defined as `def q(p):` - one required positional parameter, no **kw;
    every other function is `def f( **kw ):`.  The generated programs only ever call with () , (1) or (zz=1). *)
 Definition needs_arg (f : N) : bool := (250 <=? f)%N && (f <? 260)%N.
+(* user decorators w1, w2 (ids 260..269) are `def w(f):`; they are only ever called by a decoration, with one argument *)
+Definition is_deco (f : N) : bool := (260 <=? f)%N && (f <? 270)%N.
+Definition arity_ok (f : N) (nargs : nat) : bool :=
+  if needs_arg f then false else if is_deco f then Nat.eqb nargs 1 else Nat.eqb nargs 0.
 
 (* ---------- syntax ---------- *)
 Inductive expr :=
@@ -45,7 +49,9 @@ Inductive stmt :=
   | SFromStar (m : path) (level : nat)               (* from [.]*m import * *)
   | SFromDot (level : nat) (items : list (N * N))    (* from . import name as bind, ... *)
   | SSetCtx (c : path)                               (* pyscript.set_global_ctx("c") *)
-  | SCallBad (c : cref).                             (* f(1) / q(zz=1): a call whose argument list cannot be bound *)
+  | SCallBad (c : cref)                              (* f(1) / q(zz=1): a call whose argument list cannot be bound *)
+  | SDefDeco (f : N) (d : cref) (gl : list N) (body : list stmt)   (* @d  def f( **kw ): ...   (d = a user decorator) *)
+  | SSleep.                                          (* task.sleep(s): suspends this run; no effect on any table *)
 
 (* ---------- values, tables ---------- *)
 Inductive val :=
@@ -236,10 +242,10 @@ Definition leave_call (e : evst) (c : nat) (e' : evst) : evst :=
           e_gctx := e_gctx e'; e_func := e_func e |}
   else {| e_gst := e_gst e; e_sym := e_sym e; e_stack := e_stack e; e_gctx := e_gctx e; e_func := e_func e |}.
 
-Definition call_with (blk : world -> evst -> list stmt -> res) (w : world) (e : evst) (v : val) : res :=
+Definition call_with (blk : world -> evst -> list stmt -> res) (na : nat) (w : world) (e : evst) (v : val) : res :=
   match v with
   | VFun c f gl body =>
-      if needs_arg f then (w, e, OExc) else      (* argument binding (l.707-763) fails before the context switch *)
+      if negb (arity_ok f na) then (w, e, OExc) else      (* argument binding (l.707-763) fails before the context switch *)
       let fi := {| fi_gl := gl; fi_ln := local_names gl body |} in
       let '(w', e', o) := blk w (enter_call e c fi) body in
       match o with
@@ -411,7 +417,7 @@ Definition stmt_with (cfg : deviations) (ex : world -> evst -> stmt -> res) (w :
       match resolve_cref w e c with
       | None => (w, e, OExc)
       | Some fv =>
-          let '(w', e', o) := call_with blk w e fv in
+          let '(w', e', o) := call_with blk 0 w e fv in
           match o with
           | OReturn r => match dst with
                          | Some x => let '(w'', e'') := assign_name w' e' x r in (w'', e'', ONormal)
@@ -424,7 +430,7 @@ Definition stmt_with (cfg : deviations) (ex : world -> evst -> stmt -> res) (w :
       match resolve_cref w e c with
       | None => (w, e, OExc)
       | Some fv =>
-          let '(w', _, o) := call_with blk w (fresh_ev (e_gctx e)) fv in
+          let '(w', _, o) := call_with blk 0 w (fresh_ev (e_gctx e)) fv in
           match o with OFuel => (w', e, OFuel) | _ => (w', e, ONormal) end     (* exceptions are logged by the task *)
       end
   | SReturn ex1 => match eval_expr w e ex1 with Some v => (w, e, OReturn v) | None => (w, e, OExc) end
@@ -466,6 +472,21 @@ Definition stmt_with (cfg : deviations) (ex : world -> evst -> stmt -> res) (w :
       | None => (w, e, OExc)
       end
   | SCallBad c => (w, e, OExc)      (* NameError/AttributeError while resolving, or TypeError while binding: no state change *)
+  | SDefDeco f d gl body =>
+      (* ast_functiondef: the decorator is called with the new function; what it returns is bound to f, and a returned
+         pyscript function is renamed to f (func.set_name(name)) *)
+      match resolve_cref w e d with
+      | None => (w, e, OExc)
+      | Some dv =>
+          let '(w', e', o) := call_with blk 1 w e dv in
+          match o with
+          | OReturn r =>
+              let r' := match r with VFun c _ gl' b' => VFun c f gl' b' | _ => r end in
+              let '(w'', e'') := assign_name w' e' f r' in (w'', e'', ONormal)
+          | _ => (w', e', o)
+          end
+      end
+  | SSleep => (w, e, ONormal)
   end.
 
 Fixpoint exec (cfg : deviations) (fuel : nat) (w : world) (e : evst) (s : stmt) {struct fuel} : res :=
@@ -474,12 +495,26 @@ Fixpoint exec (cfg : deviations) (fuel : nat) (w : world) (e : evst) (s : stmt) 
   | S fuel' => stmt_with cfg (exec cfg fuel') w e s
   end.
 Definition exec_block (cfg : deviations) (fuel : nat) := block_with (exec cfg fuel).
-Definition call_fun (cfg : deviations) (fuel : nat) := call_with (exec_block cfg fuel).
+Definition call_fun (cfg : deviations) (fuel : nat) := call_with (exec_block cfg fuel) 0.
 
 (* ---------- top level: autoloaded files, trigger dispatch ---------- *)
 Inductive op :=
   | OpLoad (n : path) (rel : option path) (src : list stmt)   (* load_scripts -> GlobalContextMgr.load_file *)
-  | OpTrig (n : path) (f : N).                                (* trigger of function f of context n fires *)
+  | OpTrig (n : path) (f : N)                                 (* trigger of function f of context n fires *)
+  | OpTrigIf (n : path) (f : N) (g : N) (v : Z).              (* ... whose trigger expression "v > g" is written in file n *)
+
+Definition run_trig (cfg : deviations) (fuel : nat) (w : world) (n : path) (f : N) : world * bool :=
+  match pget (w_mgr w) n with
+  | None => (w, true)
+  | Some c =>
+      match tget (tab w c) f with
+      | Some (VFun c' f' gl body) =>
+          (* the run gets a fresh evaluator on the *function's* context *)
+          let '(w', _, out) := call_fun cfg fuel w (fresh_ev c') (VFun c' f' gl body) in
+          (w', match out with OFuel => false | _ => true end)
+      | _ => (w, true)
+      end
+  end.
 
 Definition run_op (cfg : deviations) (fuel : nat) (w : world) (o : op) : world * bool (* false = out of fuel *) :=
   match o with
@@ -491,14 +526,14 @@ Definition run_op (cfg : deviations) (fuel : nat) (w : world) (o : op) : world *
       | OFuel => (w2, false)
       | _ => (w2, true)                     (* load failed: context not registered *)
       end
-  | OpTrig n f =>
+  | OpTrig n f => run_trig cfg fuel w n f
+  | OpTrigIf n f g v =>
+      (* the expression string belongs to file n: g is looked up in n's table, whatever context the function has *)
       match pget (w_mgr w) n with
       | None => (w, true)
       | Some c =>
-          match tget (tab w c) f with
-          | Some (VFun c' f' gl body) =>
-              let '(w', _, out) := call_fun cfg fuel w (fresh_ev c') (VFun c' f' gl body) in
-              (w', match out with OFuel => false | _ => true end)
+          match tget (tab w c) g with
+          | Some (VInt t) => if (t <? v)%Z then run_trig cfg fuel w n f else (w, true)
           | _ => (w, true)
           end
       end
